@@ -148,12 +148,12 @@ def impl_builtin(case):
         det = MW(_mk_score(case["score"]), bandwidth=b, threshold_scale=scale, level=case["level"],
                  min_detection_interval=case["mdi"])
         # fitted on the data, on a series of another length, or on an object overwritten in place afterwards
-        _, nfit = core.fit_for(det, case, X)
+        data, nfit = core.fit_for(det, case, X)
         thr = float(det.threshold_)
         W = lambda a: core.wrap_container(case, a)  # noqa: E731  (ndarray or DataFrame)
         # the same fitted detector (same threshold) is then applied to the reversed series, and
         # once more to the original one: results must not depend on what it saw before
-        s, cps = _scores_cps(det, W(X))
+        s, cps = _scores_cps(det, data)  # the object returned by the fit mode (possibly the fitted object, overwritten in place)
         s_rev, cps_rev = _scores_cps(det, W(X[::-1].copy()))
         s2, cps2 = _scores_cps(det, W(X))
         if s2 != s or cps2 != cps:
